@@ -7,10 +7,15 @@ Import ListNotations.
 Open Scope Z_scope.
 
 (* hypotheses are satisfiable by non-trivial values; the witness of the known finding *)
-Definition ex_pass : test := {| t_path := [[116]]; t_name := s_test_ ++ [97]; t_markers := []; t_fixtures := [] |}.
-Definition ex_fail : test := {| t_path := [[116]]; t_name := s_test_ ++ [98]; t_markers := []; t_fixtures := [] |}.
-Definition ex_xf : test := {| t_path := [[116]]; t_name := s_test_ ++ [99]; t_markers := [MXFail [107]]; t_fixtures := [] |}.
-Definition ex_skip : test := {| t_path := [[116]]; t_name := s_test_ ++ [100]; t_markers := [MSlow; MSkip [110]]; t_fixtures := [] |}.
+Definition ex_pass : test := {| t_path := [[116]]; t_name := s_test_ ++ [97]; t_markers := []; t_fixtures := []; t_params := []; t_async := false |}.
+Definition ex_fail : test := {| t_path := [[116]]; t_name := s_test_ ++ [98]; t_markers := []; t_fixtures := []; t_params := []; t_async := false |}.
+Definition ex_xf : test := {| t_path := [[116]]; t_name := s_test_ ++ [99]; t_markers := [MXFail [107]]; t_fixtures := []; t_params := []; t_async := false |}.
+Definition ex_skip : test := {| t_path := [[116]]; t_name := s_test_ ++ [100]; t_markers := [MSlow; MSkip [110]]; t_fixtures := []; t_params := []; t_async := false |}.
+(* tests the current harness does not execute: one takes a (fixture) parameter, one is async *)
+Definition ex_param_fail : test :=
+  {| t_path := [[116]]; t_name := s_test_ ++ [101]; t_markers := []; t_fixtures := [[100; 98]]; t_params := [[100; 98]]; t_async := false |}.
+Definition ex_async_fail : test :=
+  {| t_path := [[116]]; t_name := s_test_ ++ [102]; t_markers := [MXFail [107]]; t_fixtures := []; t_params := []; t_async := true |}.
 Definition ex_body_ok (t : test) : bool := str_eqb (t_name t) (t_name ex_pass).
 
 Example C16_nonvacuous :
@@ -21,11 +26,14 @@ Example C16_nonvacuous :
   select (Some [98]) false [ex_pass; ex_fail; ex_xf; ex_skip] = [ex_fail] /\
   select None false [ex_pass; ex_skip] = [ex_pass] /\ select None true [ex_pass; ex_skip] = [ex_pass; ex_skip] /\
   results (loop true run [ex_fail; ex_pass] st0) = [(ex_fail, Failed)] /\
-  ~ Known_C16_body_never_run false (fun _ => true) ex_body_ok ex_pass /\
-  Known_C16_body_never_run false (fun _ => true) ex_body_ok ex_fail.
+  ~ Known_C16_body_not_executed harness_runs_body (fun _ => true) ex_body_ok ex_pass /\
+  ~ Known_C16_body_not_executed harness_runs_body (fun _ => true) ex_body_ok ex_fail /\
+  Known_C16_body_not_executed harness_runs_body (fun _ => true) ex_body_ok ex_param_fail /\
+  Known_C16_body_not_executed harness_runs_body (fun _ => true) ex_body_ok ex_async_fail.
 Proof.
   cbv zeta. repeat split; try (vm_compute; reflexivity).
-  intros [_ [_ H]]. vm_compute in H. discriminate.
+  - intros [_ [_ H]]. vm_compute in H. discriminate.
+  - intros [H _]. vm_compute in H. discriminate.
 Qed.
 
 (* T1  the report is exactly one verdict per selected test, in order (cut after the first Failed
@@ -238,7 +246,8 @@ Theorem C16_discovery_tests_exact : forall path ds t,
   (In t (discover_decls path (Parsed ds)) <->
    exists f, In (DFun f) ds /\ is_fixture f = false /\ (exists r, f_name f = s_test_ ++ r) /\
              t = {| t_path := path; t_name := f_name f; t_markers := extract_markers (f_decs f);
-                    t_fixtures := filter (fun p => mem_str p (fixture_names ds)) (f_params f) |}) /\
+                    t_fixtures := filter (fun p => mem_str p (fixture_names ds)) (f_params f);
+                    t_params := f_params f; t_async := f_async f |}) /\
   discover_decls path Unparsable = [] /\
   (forall f, is_fixture f = true <-> exists d, In d (f_decs f) /\ d_name d = s_fixture).
 Proof.
@@ -249,32 +258,59 @@ Proof.
 Qed.
 Print Assumptions C16_discovery_tests_exact.
 
-(* T11 harness truth, REFUTED on the current tree: the generated project contains no #[test] and
-       never calls the selected function (runs_body = false), so `cargo test` runs zero tests; a
-       test whose body fails is reported Passed and the exit status is 0; an @xfail test whose body
-       fails is reported XPassed and the exit status is 1 *)
+(* T11 harness truth, REFUTED for what the harness of the current tree still does not execute:
+       a test that takes parameters (fixtures, @parametrize) or is async gets no #[test]
+       (harness_runs_body = false), `cargo test` runs zero tests for it; if its body fails it is
+       reported Passed with exit 0 — or, under @xfail, XPassed with exit 1 *)
 Theorem C16_passed_only_if_body_ran_refuted :
   exists compiles body_ok t1 t2,
-    Known_C16_body_never_run false compiles body_ok t1 /\
-    Known_C16_body_never_run false compiles body_ok t2 /\
-    results (loop false (raw_of_harness false compiles body_ok) [t1] st0) = [(t1, Passed)] /\
-    exit_code (loop false (raw_of_harness false compiles body_ok) [t1] st0) = 0 /\
+    Known_C16_body_not_executed harness_runs_body compiles body_ok t1 /\
+    Known_C16_body_not_executed harness_runs_body compiles body_ok t2 /\
+    t_params t1 <> [] /\ t_async t2 = true /\
+    results (loop false (raw_of_harness harness_runs_body compiles body_ok) [t1] st0) = [(t1, Passed)] /\
+    exit_code (loop false (raw_of_harness harness_runs_body compiles body_ok) [t1] st0) = 0 /\
     results (loop false (raw_truth compiles body_ok) [t1] st0) = [(t1, Failed)] /\
-    results (loop false (raw_of_harness false compiles body_ok) [t2] st0) = [(t2, XPassed)] /\
-    exit_code (loop false (raw_of_harness false compiles body_ok) [t2] st0) = 1 /\
+    results (loop false (raw_of_harness harness_runs_body compiles body_ok) [t2] st0) = [(t2, XPassed)] /\
+    exit_code (loop false (raw_of_harness harness_runs_body compiles body_ok) [t2] st0) = 1 /\
     results (loop false (raw_truth compiles body_ok) [t2] st0) = [(t2, XFailed [107])].
 Proof.
-  exists (fun _ => true), ex_body_ok, ex_fail, ex_xf.
-  repeat split; vm_compute; reflexivity.
+  exists (fun _ => true), ex_body_ok, ex_param_fail, ex_async_fail.
+  repeat split; try (vm_compute; reflexivity). vm_compute. discriminate.
 Qed.
 Print Assumptions C16_passed_only_if_body_ran_refuted.
 
+(* T11b regression witness of the repaired defect test-body-never-run: a parameterless,
+       non-async test whose body fails IS executed by the current harness and reported Failed
+       (exit 1); under @xfail it is XFailed (exit 0) — for every such test, not only a sample *)
+Theorem C16_body_never_run_fixed : forall compiles body_ok t,
+  t_params t = [] -> t_async t = false -> compiles t = true -> body_ok t = false ->
+  find_skip (t_markers t) = None ->
+  ~ Known_C16_body_not_executed harness_runs_body compiles body_ok t /\
+  let s := loop false (raw_of_harness harness_runs_body compiles body_ok) [t] st0 in
+  (find_xfail (t_markers t) = None -> results s = [(t, Failed)] /\ exit_code s = 1) /\
+  (forall reason, find_xfail (t_markers t) = Some reason -> results s = [(t, XFailed reason)] /\ exit_code s = 0).
+Proof.
+  intros compiles body_ok t Hp Ha Hc Hb Hs.
+  assert (Hr : harness_runs_body t = true) by (apply harness_runs_body_spec; split; assumption).
+  split; [intros [K _]; congruence|]. cbv zeta.
+  unfold loop, step, raw_of_harness, exit_code. rewrite Hs, Hr, Hc, Hb. cbn [negb orb andb].
+  split.
+  - intro Hx. rewrite Hx. cbn. split; reflexivity.
+  - intros reason Hx. rewrite Hx. cbn. split; reflexivity.
+Qed.
+Print Assumptions C16_body_never_run_fixed.
+
+Example C16_body_never_run_fixed_witness :
+  results (loop false (raw_of_harness harness_runs_body (fun _ => true) ex_body_ok) [ex_pass; ex_fail; ex_xf] st0)
+  = [(ex_pass, Passed); (ex_fail, Failed); (ex_xf, XFailed [107])].
+Proof. vm_compute. reflexivity. Qed.
+
 (* T12 harness truth on the complement of the known class: if no selected test is in the class
-       (in particular: whenever the harness does execute bodies), the whole final state — verdicts,
-       counters, executed trace, exit status — is the truthful one, and then Passed means the body
-       ran to completion without failing, Failed means it did not *)
+       (in particular: whenever every selected test is parameterless and not async), the whole final
+       state — verdicts, counters, executed trace, exit status — is the truthful one, and then
+       Passed means the body ran to completion without failing, Failed means it did not *)
 Theorem C16_truthful_outside_known_class : forall stop runs_body compiles body_ok ts,
-  (forall t, In t ts -> ~ Known_C16_body_never_run runs_body compiles body_ok t) ->
+  (forall t, In t ts -> ~ Known_C16_body_not_executed runs_body compiles body_ok t) ->
   let s := loop stop (raw_of_harness runs_body compiles body_ok) ts st0 in
   s = loop stop (raw_truth compiles body_ok) ts st0 /\
   (forall t, In (t, Passed) (results s) -> compiles t = true /\ body_ok t = true) /\
@@ -310,20 +346,36 @@ Proof.
 Qed.
 Print Assumptions C16_truthful_outside_known_class.
 
-(* T13 the class is exact: a harness that runs bodies has an empty class, and every member of the
-       class that is not @skip IS misreported (its good/bad status is inverted) *)
+(* T12b the same for the harness of the current tree, with the class spelled out: a run whose
+       selected tests are all parameterless and not async is reported truthfully *)
+Theorem C16_truthful_for_plain_tests : forall stop compiles body_ok ts,
+  (forall t, In t ts -> t_params t = [] /\ t_async t = false) ->
+  loop stop (raw_of_harness harness_runs_body compiles body_ok) ts st0 = loop stop (raw_truth compiles body_ok) ts st0.
+Proof.
+  intros stop compiles body_ok ts H.
+  apply (C16_truthful_outside_known_class stop harness_runs_body compiles body_ok ts).
+  intros t Hin [K _]. apply H in Hin. apply harness_runs_body_spec in Hin. congruence.
+Qed.
+Print Assumptions C16_truthful_for_plain_tests.
+
+(* T13 the class is exact: a test whose body the harness runs is never in it (for the current
+       harness: exactly the tests with parameters or async can be), and every member that is not
+       @skip IS misreported (its good/bad status is inverted) *)
 Theorem C16_known_class_exact : forall runs_body compiles body_ok t,
-  (runs_body = true -> ~ Known_C16_body_never_run runs_body compiles body_ok t) /\
-  (known_body_never_runb runs_body compiles body_ok t = true <-> Known_C16_body_never_run runs_body compiles body_ok t) /\
-  (Known_C16_body_never_run runs_body compiles body_ok t -> find_skip (t_markers t) = None ->
+  (runs_body t = true -> ~ Known_C16_body_not_executed runs_body compiles body_ok t) /\
+  (known_body_not_executedb runs_body compiles body_ok t = true <-> Known_C16_body_not_executed runs_body compiles body_ok t) /\
+  (Known_C16_body_not_executed harness_runs_body compiles body_ok t -> t_params t <> [] \/ t_async t = true) /\
+  (Known_C16_body_not_executed runs_body compiles body_ok t -> find_skip (t_markers t) = None ->
      verdict (t_markers t) (raw_of_harness runs_body compiles body_ok t) <>
      verdict (t_markers t) (raw_truth compiles body_ok t) /\
      is_bad (verdict (t_markers t) (raw_of_harness runs_body compiles body_ok t)) =
      negb (is_bad (verdict (t_markers t) (raw_truth compiles body_ok t)))).
 Proof.
-  intros rb compiles body_ok t. split; [|split].
+  intros rb compiles body_ok t. split; [|split; [|split]].
   - intros H [K _]. congruence.
-  - exact (known_body_never_runb_spec rb compiles body_ok t).
+  - exact (known_body_not_executedb_spec rb compiles body_ok t).
+  - intros [K _]. unfold harness_runs_body in K. destruct (t_params t); [|left; discriminate].
+    right. apply negb_false_iff in K. exact K.
   - exact (known_class_misreported rb compiles body_ok t).
 Qed.
 Print Assumptions C16_known_class_exact.
@@ -376,27 +428,34 @@ Proof.
   - vm_compute. reflexivity.
 Qed.
 
-(* T16 "passed only if its body actually RAN": with a harness that executes the selected body,
-       every Passed/XPassed verdict is of a test whose body did run, to completion; with the
-       current harness (runs_body = false) no body runs at all, so even the correct PASSED of a
-       passing test is not backed by an execution (refuted half, witness ex_pass) *)
-Theorem C16_passed_means_body_ran : forall stop compiles body_ok ts t,
-  let s := loop stop (raw_of_harness true compiles body_ok) ts st0 in
+(* T16 "passed only if its body actually RAN": for tests the harness executes (the current
+       harness: parameterless, not async) every Passed/XPassed verdict is of a test whose body did
+       run, to completion; for a test the harness does not execute even a correct PASSED is not
+       backed by an execution (refuted half, witness: a passing test with a parameter) *)
+Theorem C16_passed_means_body_ran : forall stop runs_body compiles body_ok ts t,
+  (forall t0, In t0 ts -> runs_body t0 = true) ->
+  let s := loop stop (raw_of_harness runs_body compiles body_ok) ts st0 in
   In (t, Passed) (results s) \/ In (t, XPassed) (results s) ->
-  body_ran true compiles t = true /\ body_ok t = true.
+  body_ran runs_body compiles t = true /\ body_ok t = true.
 Proof.
-  intros stop compiles body_ok ts t. cbv zeta. intro H.
-  pose proof (C16_truthful_outside_known_class stop true compiles body_ok ts) as K. cbv zeta in K.
-  assert (Hk : forall t0, In t0 ts -> ~ Known_C16_body_never_run true compiles body_ok t0).
-  { intros t0 _ [A _]. discriminate. }
-  destruct (K Hk) as [_ [P1 [_ [P2 _]]]]. unfold body_ran. cbn [andb].
+  intros stop rb compiles body_ok ts t Hrb. cbv zeta. intro H.
+  pose proof (C16_truthful_outside_known_class stop rb compiles body_ok ts) as K. cbv zeta in K.
+  assert (Hk : forall t0, In t0 ts -> ~ Known_C16_body_not_executed rb compiles body_ok t0).
+  { intros t0 Hin [A _]. rewrite (Hrb t0 Hin) in A. discriminate. }
+  destruct (K Hk) as [_ [P1 [_ [P2 _]]]].
+  assert (Hin : In t ts).
+  { pose proof (loop_st0 stop (raw_of_harness rb compiles body_ok) ts) as L. cbv zeta in L. destruct L as [L _].
+    rewrite L in H. destruct H as [H | H]; apply verdicts_in in H; exact (proj1 H). }
+  unfold body_ran. rewrite (Hrb t Hin). cbn [andb].
   destruct H as [H | H]; [exact (P1 t H) | exact (P2 t H)].
 Qed.
 Print Assumptions C16_passed_means_body_ran.
 
 Theorem C16_passed_means_body_ran_refuted :
   exists compiles body_ok t,
-    In (t, Passed) (results (loop false (raw_of_harness false compiles body_ok) [t] st0)) /\
-    body_ok t = true /\ body_ran false compiles t = false.
-Proof. exists (fun _ => true), ex_body_ok, ex_pass. repeat split; vm_compute; auto. Qed.
+    In (t, Passed) (results (loop false (raw_of_harness harness_runs_body compiles body_ok) [t] st0)) /\
+    body_ok t = true /\ body_ran harness_runs_body compiles t = false /\ t_params t <> [].
+Proof.
+  exists (fun _ => true), (fun _ => true), ex_param_fail. repeat split; try (vm_compute; auto). vm_compute. discriminate.
+Qed.
 Print Assumptions C16_passed_means_body_ran_refuted.
